@@ -1831,12 +1831,18 @@ def stream_char_truncated(ctx, meths, F, sizes, max_lines):
 
 
 # ============================================================================ abnormally terminated outputs
-ERROR_MARK = {"orca": ["ORCA finished by error termination in SCF", "Calling Command: mpirun orca_scf_mpi"],
-              "g09": [" Error termination via Lnk1e in /usr/local/g09/l502.exe at Mon Dec 16 12:50:56 2019."],
-              "nwchem": [" MPI_ABORT was invoked on rank 0 in communicator MPI_COMM_WORLD with errorcode 911."],
-              "qchem": [" Q-Chem fatal error occurred in module libdft/dftcodes.C, line 804:", "", " SCF failed to converge"],
-              "xtb": ["#ERROR! SCF not converged, aborting run", "abnormal termination of xtb"],
-              "mopac": [" Error and normal termination messages reported in this calculation"]}
+# every spelling of an error message the wrapper tests for (alternatives), as the program prints it at the end of a run
+ERROR_MARKS = {"orca": [["ORCA finished by error termination in SCF", "Calling Command: mpirun orca_scf_mpi"]],
+               "g09": [[" Error termination via Lnk1e in /usr/local/g09/l502.exe at Mon Dec 16 12:50:56 2019."]],
+               "nwchem": [[" MPI_ABORT was invoked on rank 0 in communicator MPI_COMM_WORLD with errorcode 911."]],
+               "qchem": [[" Q-Chem fatal error occurred in module libdft/dftcodes.C, line 804:", "", " SCF failed to converge"],
+                         [" Error: the input file has failed the Q-Chem input checks", ""]],
+               "xtb": [["#ERROR! SCF not converged, aborting run", "abnormal termination of xtb"],                 # xtb < 6.3
+                       ["[ERROR] Program stopped due to fatal error", "-1- scf: Self consistent charge iterator did not converge",
+                        "abnormal termination of xtb"]],                                                           # xtb >= 6.3
+               "mopac": [[" Error and normal termination messages reported in this calculation"],
+                         [" EXCESS NUMBER OF OPTIMIZATION CYCLES", " Error: job stopped"]]}
+ERROR_MARK = {k: v[0] for k, v in ERROR_MARKS.items()}
 LIMIT_MARK = {"orca": ["    The optimization did not converge but reached the maximum number of", "    optimization cycles."],
               "g09": [" Optimization stopped.", "    -- Number of steps exceeded,  NStep=  3"],
               "nwchem": [" Failed to converge in maximum number of steps or available time"],
@@ -1858,7 +1864,9 @@ def stream_abnormal(ctx, meths, F, sizes):
             L = S.files[S.main]
             term = max(i for i, l in enumerate(L) if any(t in l for t in TERMINATION[prog]))
             # the program stops at its error: nothing follows the message
-            scen = {"error-ends-output": L[:term] + ERROR_MARK[prog]}
+            # (L[:term] holds every block of the last step, incl. the final energy: the message comes after it)
+            scen = {("error-ends-output" if k == 0 else f"error-ends-output:spelling-{k + 1}"): L[:term] + mk
+                    for k, mk in enumerate(ERROR_MARKS[prog])}
             if prog == "qchem":
                 # a batch job: the first job dies early, Q-Chem carries on with the next jobs (hundreds of lines later)
                 mid = len(L) // 3
@@ -1874,7 +1882,7 @@ def stream_abnormal(ctx, meths, F, sizes):
                 if r["ok"]:
                     F.add(f"{P}.terminated_normally_in|abnormal-termination-accepted:{name}",
                           f"{prog} {kind} output ({len(lines)} lines) containing the program's error message "
-                          f"{ERROR_MARK[prog][0].strip()!r} ({name}) is reported as terminated normally and energy "
+                          f"{next((x for x in lines[term:] if x.strip()), ERROR_MARK[prog][0]).strip()!r} ({name}) is reported as terminated normally and energy "
                           f"{r['energy']} is set", rep)
             if prog in LIMIT_MARK and kind in ("opt", "grad"):
                 lines = L[:term] + LIMIT_MARK[prog] + [l for l in L[term + 1:] if not any(t in l for t in TERMINATION[prog])]
